@@ -198,8 +198,9 @@ theorem build_noFF (ops : List PutOp) : NoFF (build ops) := by
   | nil => intro c hc; exact hc
   | cons o ops ih => intro c hc; simp only [List.foldl_cons]; exact ih _ (put_noFF hc _ _ _ _ _)
 
-theorem startOk_of_noFF {c : Cache} (h : NoFF c) (p : Int) (hp : 0x100 ≤ p ∧ p ≤ 0x8FF) : StartOk c p := by
+theorem startOk_of_noFF (sh : Shape) {c : Cache} (h : NoFF c) (p : Int) (hp : 0x100 ≤ p ∧ p ≤ 0x8FF) : StartOk sh c p := by
   unfold StartOk validPgno
+  right
   by_cases hff : p % 256 = 255
   · right; apply h; omega
   · left; simp; omega
@@ -309,8 +310,8 @@ theorem build_counted (ops : List PutOp) : Counted (build ops) := by
   | cons o ops ih => intro c hc; simp only [List.foldl_cons]; exact ih _ (put_counted hc _ _ _ _ _)
 
 /-- the facts about a reachable cache that the exactness theorems need, from the store history -/
-theorem reachable (ops : List PutOp) (h : ∀ o ∈ ops, o.subno ≤ 0x3F7F) (hnw : NoWrap (build ops)) (P : Int)
-    (hp : 0x100 ≤ P ∧ P ≤ 0x8FF) : Covered (build ops) ∧ StartOk (build ops) P :=
-  ⟨covered_of_inv (foldl_inv ops h Cache.empty empty_inv) hnw, startOk_of_noFF (build_noFF ops) P hp⟩
+theorem reachable (sh : Shape) (ops : List PutOp) (h : ∀ o ∈ ops, o.subno ≤ 0x3F7F) (hnw : NoWrap (build ops)) (P : Int)
+    (hp : 0x100 ≤ P ∧ P ≤ 0x8FF) : Covered (build ops) ∧ StartOk sh (build ops) P :=
+  ⟨covered_of_inv (foldl_inv ops h Cache.empty empty_inv) hnw, startOk_of_noFF sh (build_noFF ops) P hp⟩
 
 end Zvbi.Search
